@@ -8,7 +8,7 @@
 (*   - a Fails... predicate: the documented failure cases (panic / None).  *)
 (* BigUint values are BigZ records with s \in {0, 1}.                      *)
 (***************************************************************************)
-EXTENDS Text
+EXTENDS Text, Floats
 
 IsU(x) == x.s >= 0
 
@@ -81,6 +81,18 @@ InModInterval(x, m) == IF m.s > 0 THEN x.s >= 0 /\ Cmp(x.d, m.d) < 0
 \* None: a common divisor g > 1 with |b| = g*b1 and |m| = g*m1
 ModInvSomeOK(b, m, x, K) == InModInterval(x, m) /\ ZEq(ZSub(ZMul(b, x), ZOne), ZMul(K, m))
 ModInvNoneOK(b, m, hg)   == Cmp(hg[1], <<1>>) > 0 /\ Mul(hg[1], hg[2]) = b.d /\ Mul(hg[1], hg[3]) = m.d
+
+(* primitive integer targets *)
+TypeBits(t) == CASE t \in {"u8", "i8"} -> 8 [] t \in {"u16", "i16"} -> 16 [] t \in {"u32", "i32"} -> 32
+                 [] t \in {"u64", "i64", "usize", "isize"} -> 64 [] t \in {"u128", "i128"} -> 128
+TypeSigned(t) == t \in {"i8", "i16", "i32", "i64", "i128", "isize"}
+InRange(x, t) ==
+    LET b == TypeBits(t) IN
+    IF TypeSigned(t)
+    THEN (IF x.s >= 0 THEN Cmp(x.d, PowerOfTwo(b - 1)) < 0 ELSE Cmp(x.d, PowerOfTwo(b - 1)) <= 0)
+    ELSE x.s >= 0 /\ BitLen(x.d) <= b
+FloatP(w)  == IF w = 8 THEN 53 ELSE 24
+FloatEB(w) == IF w = 8 THEN 11 ELSE 8
 
 (* radix ranges *)
 FailsTextRadix(radix)  == radix < 2 \/ radix > 36
